@@ -38,6 +38,7 @@ ITER_BYREF = ("core::iter::traits::iterator::Iterator::by_ref", "core::iter::tra
               "core::iter::traits::iterator::Iterator::copied")
 SLICE_ITER = ("core::slice::<impl [T]>::iter", "alloc::vec::Vec::<T, A>::iter")
 EXTEND = "core::iter::traits::collect::Extend::extend"
+SET_INSERT = "alloc::collections::btree::set::BTreeSet::<T, A>::insert"
 VEC_WITH_CAPACITY = "alloc::vec::Vec::<T>::with_capacity"
 SPLIT_OFF = "alloc::vec::Vec::<T, A>::split_off"
 DRAIN = "alloc::vec::Vec::<T, A>::drain"
@@ -96,8 +97,25 @@ def subst_hole(t, x, by=X):
 
 
 def strip_sites_f(t):
+    """sequence terms keep the call sites of the terms inside them (rules need them to resolve generic callees);
+    use strip_seq() before comparing with a site-free expectation"""
+    return t
+
+
+def strip_seq(s):
     from .prov import strip_sites
-    return strip_sites(t)
+    k = s[0]
+    if k == "lit":
+        return ("lit", tuple(strip_sites(x) for x in s[1]))
+    if k == "elems":
+        return ("elems", strip_sites(s[1]), s[2], s[3])
+    if k == "map":
+        return ("map", strip_sites(s[1]), strip_seq(s[2]))
+    if k == "rev":
+        return ("rev", strip_seq(s[1]))
+    if k == "cat":
+        return ("cat", tuple(strip_seq(x) for x in s[1]))
+    return s
 
 
 def normalize(s):
@@ -177,7 +195,7 @@ class Seq:
         return self._vl
 
     # ---- iterators ------------------------------------------------------------------------------------------
-    def of_iter(self, it, depth=0):
+    def of_iter(self, it, depth=0, at=None):
         """sequence an iterator value term yields"""
         from .codec import apply_fn
         while it[0] in ("ref", "deref"):
@@ -185,25 +203,25 @@ class Seq:
         if depth > 10:
             return unknown("iterator chain too deep")
         if is_call(it, INTO_ITER) or (is_call(it) and it[1] in SLICE_ITER):
-            return self.of_value(it[2][0], depth + 1)
+            return self.of_value(it[2][0], depth + 1, at)
         if is_call(it) and it[1] in ITER_BYREF:
-            return self.of_iter(it[2][0], depth + 1)
+            return self.of_iter(it[2][0], depth + 1, at)
         if is_call(it, ITER_REV):
-            return ("rev", self.of_iter(it[2][0], depth + 1))
+            return ("rev", self.of_iter(it[2][0], depth + 1, at))
         if is_call(it, ITER_MAP) and len(it[2]) == 2:
             f = apply_fn(self.prog, it[2][1], [X])
             if f is None and it[2][1][0] == "fn":
                 f = ("call", it[2][1][2], (X,))          # a named function used as the mapper
             if f is None:
                 return unknown("mapper %s" % show(it[2][1])[:60])
-            return ("map", strip_sites_f(f), self.of_iter(it[2][0], depth + 1))
+            return ("map", strip_sites_f(f), self.of_iter(it[2][0], depth + 1, at))
         if is_call(it, DRAIN) or is_call(it, SPLIT_OFF):
-            return self.of_value(it, depth + 1)
+            return self.of_value(it, depth + 1, at)
         # an Option used as a 0/1-element iterator, a Vec value, ...
-        return self.of_value(it, depth + 1)
+        return self.of_value(it, depth + 1, at)
 
     # ---- values ---------------------------------------------------------------------------------------------
-    def of_value(self, t, depth=0):
+    def of_value(self, t, depth=0, at=None):
         """sequence denoted by a collection-valued provenance term"""
         while t[0] in ("ref", "deref"):
             t = t[1]
@@ -212,20 +230,26 @@ class Seq:
         if t[0] == "tryok":
             inner = t[1]
             if is_call(inner, ITER_COLLECT) or is_call(inner, FROM_ITER):
-                return self._lift_try(self.of_iter(inner[2][0], depth + 1))
+                return self._lift_try(self.of_iter(inner[2][0], depth + 1, at))
             if is_call(inner, TRY_ARRAY_CONVERT) and len(inner[2]) == 2:
                 return self._convert(inner, depth)
             if is_call(inner, TO_ARRAY) and len(inner[2]) == 1:
-                return ("map", ("tryok", ("call", "common::AsCborValue::to_cbor_value", (X,))), self.of_value(inner[2][0], depth + 1))
+                return ("map", ("tryok", ("call", "common::AsCborValue::to_cbor_value", (X,))), self.of_value(inner[2][0], depth + 1, at))
             if is_call(inner, TRY_ARRAY):
                 return ("elems", strip_sites_f(t), 0, None)
             return ("elems", strip_sites_f(t), 0, None)
         if is_call(t, ITER_COLLECT) or is_call(t, FROM_ITER):
-            return self.of_iter(t[2][0], depth + 1)
+            return self.of_iter(t[2][0], depth + 1, at)
         if is_call(t) and (t[1] in (INTO_ITER, ITER_REV, ITER_MAP) or t[1] in ITER_BYREF or t[1] in SLICE_ITER):
-            return self.of_iter(t, depth + 1)        # an iterator used where a collection is expected (`for x in it.rev()`)
-        if is_call(t, VL.VEC_NEW) or is_call(t, VEC_WITH_CAPACITY):
-            return ("empty",)
+            return self.of_iter(t, depth + 1, at)    # an iterator used where a collection is expected (`for x in it.rev()`)
+        if is_call(t) and t[1] in (VL.VEC_NEW, VEC_WITH_CAPACITY, BOX_VEC):
+            # a vector created in this function: its creation says nothing about what was pushed since - follow the local
+            site = t[3] if len(t) > 3 else None
+            if site and site[0] == self.fn.key and at is not None:
+                dest = self.fn.blocks[site[1]]["term"]["dest"]
+                if not dest["p"]:
+                    return self.of_local(dest["l"], at[0], at[1], depth + 1)
+            return unknown("a vector built in this function, seen only through its creation")
         if is_call(t) and t[1] in (SPLIT_OFF, DRAIN) and len(t) > 3 and t[3] and t[3][0] == self.fn.key:
             return self._split(t)
         if t[0] in ("phi", "loop", "undef"):
@@ -269,7 +293,7 @@ class Seq:
     def of_operand(self, op, bb, idx):
         if op["k"] in ("copy", "move") and not op["place"]["p"]:
             return self.of_local(op["place"]["l"], bb, idx)
-        return self.of_value(self.pv.operand_term(op, bb, idx))
+        return self.of_value(self.pv.operand_term(op, bb, idx), 0, (bb, idx))
 
     def of_local(self, l, bb, idx, depth=0):
         """sequence held by Vec local l just before (bb, idx)"""
@@ -282,6 +306,8 @@ class Seq:
         root = None
         for _ in range(10):
             ds = list(pv.reaching(cur[0], cur[1], cur[2]))
+            if len(ds) > 1 and -1 in ds and not (1 <= cur[0] <= fn.arg_count):
+                ds = [d for d in ds if d != -1]      # not yet initialised on some other path: the value, if any, is this one
             if len(ds) != 1:
                 return unknown("several definitions of the vector")
             if ds[0] == -1:
@@ -308,10 +334,12 @@ class Seq:
                 name = callee_path(payload)
                 if name == BOX_VEC:
                     base = self._vec_literal(payload, dbb)
+                elif name in (VL.VEC_NEW, VEC_WITH_CAPACITY):
+                    base = ("empty",)
                 else:
-                    base = self.of_value(pv.call_term(dbb), depth + 1)
+                    base = self.of_value(pv.call_term(dbb), depth + 1, (dbb, "term"))
             else:
-                base = self.of_value(pv.def_term(root[1]), depth + 1)
+                base = self.of_value(pv.def_term(root[1]), depth + 1, (dbb, didx))
         # operations on the vector between its root and the point of interest, in program (RPO) order
         order = {b: i for i, b in enumerate(cfg.rpo)}
         here = order.get(bb, 10 ** 6)
@@ -345,6 +373,20 @@ class Seq:
                 return cur
         return normalize(cur)
 
+    def contribution(self, effects, ref_bb):
+        """what a group of effects on ONE vector place (e.g. the arm of a dispatch that fills `result.crit`) appends to it:
+        the sequence obtained by applying them, in program order, to the empty sequence.  Decisions between ref_bb and
+        the effects (the dispatch itself) are the caller's business; decisions inside inner loops still count."""
+        order = {b: i for i, b in enumerate(self.fn.cfg.rpo)}
+        cur = ("empty",)
+        for e in sorted(effects, key=lambda e: order.get(e["bb"], 10 ** 6)):
+            if e["kind"] != "call":
+                return unknown("assignment")
+            cur = self._apply(cur, e, ref_bb, strict=False)
+            if cur[0] == "unknown":
+                return cur
+        return normalize(cur)
+
     def _vec_literal(self, call, bb):
         pv = self.pv
         boxt = pv.operand_term(call["args"][0], bb, "term")
@@ -357,15 +399,16 @@ class Seq:
                     return ("lit", tuple(e["value"][1]))
         return unknown("vec![..] literal not found")
 
-    def _apply(self, cur, e, root_bb):
+    def _apply(self, cur, e, root_bb, strict=True):
         fn, pv, cfg = self.fn, self.pv, self.fn.cfg
         name = e["callee"]
         t = fn.blocks[e["bb"]]["term"]
         loops_e = [h for h in cfg.in_loop(e["bb"]) if root_bb not in self._loops[h]]
-        if name == VL.VEC_PUSH:
+        if name in (VL.VEC_PUSH, SET_INSERT):
+            # (an insert into a set is a push for the purpose of "which elements, derived how"; order is the consumer's call)
             v = pv.operand_term(t["args"][1], e["bb"], "term")
             if not loops_e:
-                if self._conditional(e["bb"], root_bb):
+                if strict and self._conditional(e["bb"], root_bb):
                     return unknown("conditional push")
                 return ("cat", (cur, ("lit", (v,))))
             if len(loops_e) > 1:
@@ -374,14 +417,14 @@ class Seq:
         if name == EXTEND:
             if loops_e:
                 return unknown("extend in a loop")
-            if self._conditional(e["bb"], root_bb):
+            if strict and self._conditional(e["bb"], root_bb):
                 return unknown("conditional extend")
             src = pv.operand_term(t["args"][1], e["bb"], "term")
             if src[0] == "array":
                 return ("cat", (cur, ("lit", tuple(src[1]))))
             if src[0] == "aggr" and src[1] == "core::option::Option":
                 return unknown("extend with an Option")
-            return ("cat", (cur, self.of_iter(src)))
+            return ("cat", (cur, self.of_iter(src, 0, (e["bb"], "term"))))
         if name == VL.VEC_REVERSE or name == "core::slice::<impl [T]>::reverse":
             if loops_e:
                 return unknown("reverse in a loop")
@@ -446,7 +489,7 @@ class Seq:
             src = self._source_before_loop(lv[1], header)
             F = strip_sites_f(subst_hole(v, s))
             return ("map", F, ("rev", _slice(src, d["K"], None)))
-        S = self.of_iter(it)
+        S = self.of_iter(it, 0, (nbb, "term"))
         if not any(s == x for s in subterms(v)):
             return unknown("pushed value does not depend on the loop element")
         F = strip_sites_f(subst_hole(v, x))
